@@ -10,6 +10,27 @@ def get_byte(cm, buff):
     return cm.packer["B"].unpack(buff.read(1))[0]
 
 
+_K = 0x10 | 3
+_STEPS = (1, 4, -9)
+
+
+def _helper_h(a, b):
+    if b == 0:
+        raise ValueError("b")
+    return (a << 1) - a // b
+
+
+def t_robust(a):
+    s = 0
+    for _ in range(2):
+        s += 1
+    for step in _STEPS:
+        s = (s | a * step) if a >= 0 else s - step
+    k = _K if a % 2 else -_K
+    k = k + (0 if a != 6 else -k)
+    return _helper_h(s, k) + (1 if s > 100 else 2)
+
+
 def t_arith(a, b):
     return (a + b) * (a - b) + a // b - a % b
 
